@@ -181,6 +181,46 @@ def C12_read_list(a: int, b: int, c: int) -> bool:
   return got == want and bool(rl) == bool(want)
 
 
+def C12_reload(a: int, b: int, mode: int) -> bool:
+  """
+  pre: 0 <= a < len(LINES) and 0 <= b < len(LINES)
+  pre: 0 <= mode <= 3
+  post: __return__
+  """
+  # the list file is re-read when it changes: rewritten with other content / emptied / deleted / untouched
+  import shutil as _sh
+  path = os.path.join(_TMP, 'reload_%d_%d_%d.conf' % (a, b, mode))
+  _sh.copyfile(_file_for((a, len(LINES), len(LINES))), path)
+  os.utime(path, (1000, 1000))
+  rl = regexlist.RegexList()
+  rl.list_file = path
+  old_log = regexlist.log
+  quiet(regexlist)
+  try:
+    rl.read_list()
+    first = [r.pattern for r in rl.regex_list]
+    if mode == 0:
+      _sh.copyfile(_file_for((b, len(LINES), len(LINES))), path)
+      os.utime(path, (2000, 2000))
+      want = [r.pattern for r in [_valid(pick(LINES, b))] if r is not None]
+    elif mode == 1:
+      open(path, 'w').close()
+      os.utime(path, (2000, 2000))
+      want = []
+    elif mode == 2:
+      os.remove(path)
+      want = []
+    else:
+      want = first
+    rl.read_list()
+  finally:
+    regexlist.log = old_log
+    if os.path.exists(path):
+      os.remove(path)
+  cover('reloaded')
+  return first == [r.pattern for r in [_valid(LINES[a])] if r is not None] and [r.pattern for r in rl.regex_list] == want and bool(rl) == bool(want)
+
+
 def C12_contains(name: str, a: int, b: int) -> bool:
   """
   pre: len(name) <= 3
@@ -251,6 +291,9 @@ HARNESSES = [
   H('C12_read_list', quick=dict(timeout=200), covers=['read'],
     encodes=['carbon.regexlist:RegexList.read_list', 'carbon.regexlist:RegexList.__bool__'],
     assumptions=['list files of <= 3 lines drawn by symbolic indices from {2 valid patterns, comment, blank, whitespace, invalid, 3rd valid}; files written at import time']),
+  H('C12_reload', quick=dict(timeout=280, shards=[('mode%d' % k, 'mode == %d' % k) for k in range(4)], extra_pre=['a <= 2 and b <= 2']), thorough=dict(timeout=600, shards=[('mode%d' % k, 'mode == %d' % k) for k in range(4)]), covers=['reloaded'], twin_pre=['mode == 0 and a <= 1 and b <= 1'],
+    encodes=['carbon.regexlist:RegexList.read_list (mtime-based reload)'],
+    assumptions=['one-line list file, then rewritten with another line / emptied / deleted / untouched (symbolic choices); mtimes set explicitly']),
   H('C12_contains', quick=dict(timeout=200), thorough=dict(timeout=600, extra_pre=[]), covers=['asked'],
     encodes=['carbon.regexlist:RegexList.__contains__'],
     assumptions=['symbolic metric name of length <= 3 against 1-2 patterns; CrossHair\'s regex model']),
